@@ -146,8 +146,8 @@ def _method(d, s, m, shape):
             attrs.append({"name": seg["s"], "type": {"kind": "string"}, "required": True})
     for p in m["params"]:
         an = ATTR_OF[p["name"]]
-        a = {"name": an, "type": {"kind": "int" if p["in"] == "query" else "string"}, "required": p["mode"] == "required"}
-        if p["mode"] == "default":
+        a = {"name": an, "type": {"kind": "int" if p["in"] == "query" else "string"}, "required": p["mode"] in ("required", "rd")}
+        if p["mode"] in ("default", "rd"):
             a["default"] = 3 if p["in"] == "query" else "abc"
         if p.get("xb"):
             a["val"] = {"exclMin": 2}
